@@ -89,10 +89,16 @@ def make_db(name):
                 [other(), ParsingStateDeltaEnterMathMode(), other()])), LatexArgumentSpec('{')]),
             MacroSpec('cn', [LatexArgumentSpec('{', parsing_state_delta=ParsingStateDeltaChained(
                 [ParsingStateDeltaEnterMathMode(), ParsingStateDeltaLeaveMathMode()]))]),
+            # a tokenisation-changing (not mode-changing) delta on the FIRST argument only
+            MacroSpec('link', [LatexArgumentSpec('{', parsing_state_delta=ParsingStateDelta(
+                set_attributes=dict(enable_comments=False, enable_math=False, enable_specials=False))), LatexArgumentSpec('{')]),
+            MacroSpec('linko', [LatexArgumentSpec('[', parsing_state_delta=ParsingStateDelta(
+                set_attributes=dict(enable_comments=False, enable_math=False, enable_specials=False))), LatexArgumentSpec('{')]),
+            MacroSpec('plain', ['{']),
         ], environments=[
             EnvironmentSpec('cmath', '', body_parsing_state_delta=ParsingStateDeltaChained(
                 [ParsingStateDeltaEnterMathMode(), other()])),
-        ])
+        ], specials=[SpecialsSpec('~')])
         db.set_unknown_macro_spec(MacroSpec(''))
         db.set_unknown_environment_spec(EnvironmentSpec(''))
     elif name == 'bare':
@@ -118,6 +124,10 @@ def ctx_wire(name):
 CONTEXTS = ['default', 'custom', 'custom-nofallback', 'bare']
 UNMODELLED_CONTEXTS = ['commasep', 'legacyverb', 'chained']          # wire entry 999 does not exist: model and implementation dump both say BADIN
 SYM_LEGACYVERB = ['\\lstinline', '\\vb', '[o]', '*', '|', 'x', ' ', '{a}', '+a b+', '\n', '\\begin{lst}', '\\end{lst}', '%c\n', '[', '$']
+# what the 'chained' context's specifications MEAN for the mode of each argument / body ('T' text, 'M' math, '=' inherit),
+# written down here and not read back from the delta objects of the library
+CHAINED_EFFECTS = {'ct': ['T'], 'cm': ['M', '='], 'cn': ['T'], 'link': ['=', '='], 'linko': ['=', '='], 'plain': ['='],
+                   'cmath': 'M'}
 SYM_CHAINED = ['\\ct', '\\cm', '\\cn', '{', '}', 'a', ' ', '$', '\\begin{cmath}', '\\end{cmath}', '%c\n', '\\(', '\\)', '{x}']
 SYM_COMMASEP = ['\\cs', '\\ck', '{', '}', ',', ',,', 'a', ' ', 'b,', '{c}', '%x\n', '$', '\\cs{', '\n\n', '[', '\\z']
 
